@@ -1034,6 +1034,38 @@ func (g *Gen) runVotes(nops int) {
 			g.do(g.stakingLine())
 		case x < 82:
 			g.do(fmt.Sprintf("q_lastnonce %s %s", g.pick([]string{"ethereum", "minter"}), g.vals[r.Intn(len(g.vals))].addr))
+		case x < 91 && x >= 89 && g.mon != nil && g.mon.prop == "C06":
+			// a registration of an orchestrator that never made it into a block (dry run on a discarded branch); that account
+			// then tries to vote: every node must refuse it, whether it saw the dry run or not
+			chain := g.pick([]string{"ethereum", "minter"})
+			vi := r.Intn(len(g.vals))
+			orch := hex20(byte(0xe0 + r.Intn(3)))
+			g.do(fmt.Sprintf("world dryrun:delegate:%s:%s:%s:%s", chain, g.vals[vi].addr, orch, ethAddrs[len(ethAddrs)-1-r.Intn(3)]))
+			n := g.env.k.GetLastObservedEventNonce(g.env.ctx, types.ChainID(chain)) + 1
+			g.do(fmt.Sprintf("vote %s %s %s", chain, orch, event(chain, n, 0)))
+			g.stats["det:dry-run-registration-then-vote"]++
+		case x < 89 && x >= 86:
+			// a validator registers keys again (a new orchestrator and external key) while one of its claims is still
+			// pending, then submits its latest claims again — from its own account and from the new orchestrator
+			chain := g.pick([]string{"ethereum", "minter"})
+			lo := g.env.k.GetLastObservedEventNonce(g.env.ctx, types.ChainID(chain))
+			for vi, v := range g.vals {
+				last, ok := voted[chain+"/"+v.addr]
+				if !ok || !v.bonded || last <= lo {
+					continue
+				}
+				g.stats["votes:keys-registered-again-with-a-claim-pending"]++
+				g.delegate(vi, chain, true)
+				for n := lo + 1; n <= last; n++ {
+					for _, e := range cand[fmt.Sprintf("%s/%d", chain, n)] {
+						g.do(fmt.Sprintf("vote %s %s %s", chain, v.addr, e))
+						if o, ok := g.vals[vi].orch[chain]; ok {
+							g.do(fmt.Sprintf("vote %s %s %s", chain, o, e))
+						}
+					}
+				}
+				break
+			}
 		case x < 86:
 			// a validator that joined late (an event was applied without its vote) re-submits that applied claim and
 			// then its own latest claims again: none of this may be counted
@@ -1111,6 +1143,13 @@ func (g *Gen) runOracle(nops int) {
 			g.vals[1].power = 66
 		}
 	}
+	if len(g.vals) >= 3 && r.Intn(5) == 0 {
+		// a bonded validator with less than 1/65535 of the power: its normalised weight in the oracle is 0
+		g.vals[0].power, g.vals[1].power, g.vals[len(g.vals)-1].power = 60000, 39999, 1
+		for i := range g.vals {
+			g.vals[i].bonded = true
+		}
+	}
 	g.do(g.stakingLine())
 	g.do("init")
 	g.height, g.time = 1, 1600000000
@@ -1164,6 +1203,9 @@ func (g *Gen) runOracle(nops int) {
 				if r.Intn(30) == 0 {
 					items = append(items, n+"="+new(big.Int).Add(val, big.NewInt(1000)).String()) // duplicate name
 				}
+			}
+			if r.Intn(8) == 0 {
+				items = append(items, "only"+v[:2]+"="+big.NewInt(int64(1+r.Intn(1000))).String()) // a name nobody else reports
 			}
 			if len(items) == 0 {
 				items = []string{"-"}
@@ -1741,6 +1783,31 @@ func (g *Gen) runStress(nops int) {
 			for j := 0; j < n; j++ {
 				t := toks[r.Intn(len(toks))]
 				g.do(fmt.Sprintf("send %s %s %s %s %d %d %s", g.pick(g.accounts), chain, g.pick(g.recips), t.denom, 1000000000000+r.Intn(1000000), r.Intn(5)*1000000000, g.nextTag()))
+			}
+			if r.Intn(2) == 0 {
+				// in the same block: registrations that are refused (address or orchestrator already bound), then one more write
+				for k := 0; k < 3; k++ {
+					var holder *valSpec
+					for i := range g.vals {
+						if g.vals[i].eth[chain] != "" {
+							holder = &g.vals[i]
+						}
+					}
+					if holder == nil {
+						break
+					}
+					other := g.vals[r.Intn(len(g.vals))]
+					g.do(fmt.Sprintf("delegate %s %s %s %s %s %s %d %d", chain, other.addr, hex20(byte(0xd0+k)), holder.eth[chain], holder.eth[chain], other.addr, 0, 1))
+					g.do(fmt.Sprintf("delegate %s %s %s %s %s %s %d %d", chain, other.addr, holder.orch[chain], ethAddrs[len(ethAddrs)-1-k], ethAddrs[len(ethAddrs)-1-k], other.addr, 0, 1))
+				}
+				g.stats["stress:refused-registrations-after-a-burst"]++
+				t := toks[r.Intn(len(toks))]
+				g.do(fmt.Sprintf("send %s %s %s %s %d %d %s", g.pick(g.accounts), chain, g.pick(g.recips), t.denom, 1000000000000+r.Intn(1000000), r.Intn(5)*1000000000, g.nextTag()))
+				g.do("end")
+				g.height++
+				g.time += 3
+				g.do(fmt.Sprintf("block %d %d", g.height, g.time))
+				g.do("begin")
 			}
 		case x < 45:
 			// hostile reported events, voted by everybody
